@@ -131,7 +131,7 @@ def _judge_dag(U, out, A, Imask, family, case, rec, key, chain_variants=(True,))
     if len(want) < len(mec):
         rec.count("imec:proper-subclass")
     ctx = {"dag": _gc.rows(out), "targets": sorted(I)}
-    Iarg = set(I) if (Imask + p) % 5 else frozenset(I)
+    Iarg = (frozenset(I), set(I), set(I), set(np.int64(v) for v in I), set(I))[(Imask + p) % 5]    # numpy-integer members included
     if chain_variants == (True,) and (sum(out) + Imask) % 6 == 2:
         chain_variants = (True, False)
         rec.count("keyword:check_chain=False")
